@@ -47,6 +47,7 @@ type callView struct {
 	errRet            []int
 	errCall           []int
 	cancel            int
+	endKind           string
 	drops             int
 	retryDone         int // seq of hook rpc.retry.done (0: not seen)
 	ctxDoneHook       int
@@ -134,6 +135,10 @@ func buildView(res *result) *logView {
 		case "cancel":
 			if c.cancel == 0 {
 				c.cancel = e.Seq
+				c.endKind = "cancel"
+				if e.S == "deadline" {
+					c.endKind = "deadline"
+				}
 			}
 		case "drop.enter":
 			c.drops++
@@ -358,6 +363,37 @@ func checkC25(res *result, v *logView) (out []finding, pendingAckResends int) {
 					errAt = x
 				}
 			}
+			// Cancel-aware transport (the send fake returns ctx.Err() as soon as the context it
+			// was GIVEN ends): a completed result / error handler cancels the retry context, so a
+			// transmission that was blocked in send at that moment must be aborted. In the settled
+			// world after the notification it may neither still be inside send (Do would not
+			// return until the write finishes) nor complete as a transmission later.
+			if res.Cfg.SendHonorsCtx {
+				for kind, at := range map[string]int{"result": resAt, "error": errAt} {
+					if at == 0 {
+						continue
+					}
+					next := 0
+					for _, st := range v.stimuli {
+						if st > at {
+							next = st
+							break
+						}
+					}
+					if next == 0 {
+						continue
+					}
+					for k, sd := range c.sends {
+						if sd.enter > at || (sd.exit != 0 && sd.exit < next) {
+							continue
+						}
+						add("blocked-in-send-after-"+kind, fmt.Sprintf("call %d transmission %d entered send at %d and was still inside it at %d; the %s notification had returned at %d (handler complete, retry context cancelled) and the world had settled", c.i, k, sd.enter, next, kind, at))
+						if k >= 1 && sd.outcome == "ok" {
+							add("send-after-"+kind, fmt.Sprintf("call %d retransmission %d, blocked in a cancel-aware send when the %s notification returned at %d, was not aborted and went on the wire at %d", c.i, k, kind, at, sd.exit))
+						}
+					}
+				}
+			}
 			for kind, at := range map[string]int{"ack": first(c.ackRet), "result": resAt, "error": errAt} {
 				// only when the Do goroutine was waiting in the retry select when the
 				// notification arrived: if it was inside a (slow) send or held at a hook it
@@ -552,13 +588,16 @@ func checkC26(res *result, v *logView) []finding {
 		}
 		firstSentOK := len(c.sends) > 0 && c.sends[0].outcome == "ok"
 		// drop accounting
-		if c.class == "ctxerr" {
+		// "its context error": exactly ctx.Err(), or an error wrapping it after the
+		// caller's context had ended (errors.Is(err, ctx.Err()))
+		ended := c.cancel != 0 && c.cancel < c.doRet
+		if c.class == "ctxerr" || (c.class == "ctxerr-wrapped" && ended) {
 			want := 0
 			if firstSentOK {
 				want = 1
 			}
 			if c.drops != want {
-				add(fmt.Sprintf("drop-count|ctxerr|sent=%v|drops=%d", firstSentOK, c.drops), fmt.Sprintf("call %d", c.i))
+				add(fmt.Sprintf("drop-count|%s|sent=%v|drops=%d", c.class, firstSentOK, c.drops), fmt.Sprintf("call %d (context ended by %s)", c.i, c.endKind))
 			}
 		} else if c.drops != 0 {
 			add(fmt.Sprintf("drop-count|%s|drops=%d", c.class, c.drops), fmt.Sprintf("call %d", c.i))
@@ -607,6 +646,16 @@ func checkC26(res *result, v *logView) []finding {
 	return out
 }
 
+func endMark(c *callView) byte {
+	if c.cancel == 0 || (c.doRet != 0 && c.cancel > c.doRet) {
+		return '0'
+	}
+	if c.endKind == "deadline" {
+		return 'd'
+	}
+	return '1'
+}
+
 // outcomeKey: abstract state reached by a call × return class (distinct non-trivial case class).
 func outcomeKey(res *result, v *logView, c *callView) string {
 	sent := len(c.sends) > 0 && c.sends[0].outcome == "ok"
@@ -625,5 +674,5 @@ func outcomeKey(res *result, v *logView, c *callView) string {
 	closedBefore := v.closeCall != 0 && (c.doRet == 0 || v.closeCall < c.doRet)
 	return fmt.Sprintf("n%d/sent%c/tx%d/ack%c/res%d/err%c/cancel%c/close%c/dec%d/inflight%c/drop%d/%s",
 		res.Cfg.N, b(sent), len(c.sends), b(anyBefore(c.ackCall, c.doRet)), len(c.resCall), b(len(c.errCall) > 0),
-		b(c.cancel != 0 && (c.doRet == 0 || c.cancel < c.doRet)), b(closedBefore), len(c.decs), b(inflight), c.drops, c.class)
+		endMark(c), b(closedBefore), len(c.decs), b(inflight), c.drops, c.class)
 }
